@@ -55,6 +55,7 @@ struct CState {
     stalled: Option<String>,
     idle_end: bool,
     reads: u64,
+    reads_after_end: u64,
 }
 
 struct CShared {
@@ -97,6 +98,7 @@ pub fn pair() -> (MemClient, MemConn) {
             stalled: None,
             idle_end: false,
             reads: 0,
+            reads_after_end: 0,
         }),
         cv: Condvar::new(),
     });
@@ -129,6 +131,16 @@ impl MemConn {
                 st.in_pos += n;
                 st.consumed += n;
                 return Ok(n);
+            }
+            if st.in_err.is_some() || st.in_eof {
+                // a caller that keeps reading after the end (or after an error) without ever giving
+                // up is spinning: break the loop so that the harness can report it
+                st.reads_after_end += 1;
+                if st.reads_after_end > 200_000 {
+                    st.stalled = Some(format!("the server read {} times after end-of-stream / a read error without giving up (busy loop)", st.reads_after_end));
+                    drop(st);
+                    panic!("verif: busy loop on a finished connection");
+                }
             }
             if let Some(k) = st.in_err {
                 return Err(io::Error::new(k, "injected read fault"));
